@@ -71,5 +71,32 @@ def Inv (c : HCfg) (s : HashSet) : Prop :=
 
 instance (c : HCfg) (s : HashSet) : Decidable (s.Inv c) := by unfold Inv; infer_instance
 
+/-! ### histories -/
+open Spec.Set (Op) in
+/-- one call of the public API (the out-value of `remove`, the dummy, is dropped) -/
+def step (c : HCfg) (s : HashSet) (op : Op) (m : Mem) : Spec.Map.Out × HashSet × Mem :=
+  match op with
+  | .add e => let r := s.add c e m; (⟨some r.1, none⟩, r.2.1, r.2.2)
+  | .contains e => let r := s.contains c e m; (⟨none, some (if r.1 then 1 else 0)⟩, s, r.2)
+  | .remove e => let r := s.remove c e m; (⟨some r.1, none⟩, r.2.2.1, r.2.2.2)
+  | .removeAll => let r := s.removeAll m; (⟨none, none⟩, r.1, r.2)
+
+open Spec.Set (Op) in
+/-- the failure an insertion reported, if any -/
+def failedOf (op : Op) (o : Spec.Map.Out) : Option Stat :=
+  match op, o.st with
+  | .add _, some .ok => none
+  | .add _, st => st
+  | _, _ => none
+
+open Spec.Set (Op) in
+def run (c : HCfg) (s : HashSet) (ops : List Op) (m : Mem) : List Spec.Map.Out × List (Option Stat) × HashSet × Mem :=
+  match ops with
+  | [] => ([], [], s, m)
+  | op :: ops =>
+    let r := s.step c op m
+    let rs := run c r.2.1 ops r.2.2
+    (r.1 :: rs.1, failedOf op r.1 :: rs.2.1, rs.2.2.1, rs.2.2.2)
+
 end HashSet
 end CC
